@@ -326,6 +326,15 @@ def replay_call(ctx, res, rec, par, tag):
             border = "search-range-edge"
     if border is None and binary_mask_mismatch(radius):
         border = "binary-mask-edge"
+    if border is None:
+        # a current-frame feature exactly on the query ball (float rounding of to_eucl decides)
+        R = rec["bg_radius"]
+        scale = [Fraction(1)] * len(shape) if par["iso_sr"] else sr
+        for hq in hashc:
+            for p in pos:
+                d = math.sqrt(float(ell2(diff(hq, p), scale)))
+                if abs(d - R) <= 1e-9 * max(1.0, R):
+                    border = "background-query-edge"
     if border is None and m.get("tiekey") == "1":
         border = "tiekey"
     # ---- compare
@@ -512,19 +521,35 @@ def gen_movie(rng, regime):
     rad = [int(float(Fraction(x)) // 2) for x in (par["diameter"] or par["sep"])]
     H, W = rng.randint(32, 64), rng.randint(32, 64)
     nfr = rng.randint(3, 6)
-    sig = rng.choice([1.2, 1.5, 2.0])
     preprocess = rng.random() < 0.3
+    if regime == "sep":
+        # blobs narrower than the separation (the bandpass of find_link uses a boxcar of that size)
+        smax = max(0.8, min(2.0, (min(sep) - 1) / 4.0))
+        sig = rng.choice([smax, round(0.8 * smax, 2)])
+    else:
+        sig = rng.choice([1.2, 1.5, 2.0])
     noise_kind = rng.choice(["none", "none", "uniform", "salt", "offset"])
     if regime == "sep":
         level = rng.randint(1, 4 if preprocess else 8)
     else:
         level = rng.randint(1, 40)
-    noise = dict(kind=noise_kind, level=level)
     nmask = 1
     for r in rad:
         nmask *= (2 * r + 1)
     if regime == "sep":
-        minmass = (nmask * level + 30) if noise_kind != "none" else rng.choice([0, 30, 100])
+        if preprocess and min(sep) < 7:
+            preprocess = False       # find_link's boxcar (size ~ separation) would eat the blobs
+        # the noise inside a feature mask must stay well below the mass of the dimmest blob
+        blob_mass = 2 * math.pi * sig * sig * 130 * 0.7
+        level = min(level, int((blob_mass / 2 - 30) // nmask))
+        if level < 1:
+            noise_kind, level = "none", 1
+    noise = dict(kind=noise_kind, level=level)
+    if regime == "sep":
+        if preprocess:
+            minmass = rng.choice([0, 30])
+        else:
+            minmass = (nmask * level + 30) if noise_kind != "none" else rng.choice([0, 30, 100])
     else:
         minmass = rng.choice([0, 0, 50, 200, 600])
     n = rng.randint(1, 6)
@@ -662,14 +687,14 @@ def gen_call(rng, dim=2):
 def gen_cases(ctx):
     for inp in ctx.corpus():
         yield inp
-    nm = ctx.n(110, 1500)
+    nm = ctx.n(200, 3000)
     for i in range(nm):
         rng = ctx.rng("movie", i)
         regime = "sep" if rng.random() < 0.5 else "adv"
         inp = gen_movie(rng, regime)
         if inp is not None:
             yield inp
-    nc = ctx.n(260, 4000)
+    nc = ctx.n(500, 8000)
     for i in range(nc):
         rng = ctx.rng("call", i)
         yield gen_call(rng, dim=3 if rng.random() < 0.12 else 2)
@@ -804,6 +829,7 @@ def run_find_link(inp, store, log):
         log["handed"][t] = [tuple(int(c) for c in coords[i]) for i in keep]
         return coords[keep].reshape(len(keep), coords.shape[1] if coords.ndim == 2 else len(shape))
 
+    from trackpy.linking.utils import SubnetOversizeException
     kw = fl_kwargs(inp)
     with recorded_calls(store):
         try:
@@ -812,6 +838,8 @@ def run_find_link(inp, store, log):
             if "No objects to concatenate" in str(e):
                 return None, reader
             raise
+        except SubnetOversizeException:
+            return "oversize", reader      # documented way out of crowded sub-nets
     return out, reader
 
 
@@ -874,6 +902,9 @@ def run_movie_case(ctx, inp):
     log = dict(detected={}, handed={})
     out, reader = run_find_link(inp, store, log)
     nfr = len(inp["frames"])
+    if isinstance(out, str):
+        res.stat("movie_subnet_oversize")
+        return res
     levels = levels_of(out, nfr)
     handed = {t: set(v) for t, v in log["handed"].items()}
     res.stat("movies")
